@@ -3,9 +3,10 @@
 //
 // Bounded-exhaustive: every request of a finite grammar
 //
-//	cfg x path x method x Content-Type x header set x body
+//	cfg x path x method x Content-Type x header set x body x ResponseWriter x delivery
 //
-// is served by the real handler tree (httpgrpc.NewServer, and an http.ServeMux
+// (delivery: how the transport announces the body's length and hands its bytes
+// to the handler, delivery.go) is served by the real handler tree (httpgrpc.NewServer, and an http.ServeMux
 // filled by httpgrpc.HandleServices; with and without a base path and
 // interceptors) on an httptest recorder; the reply and the application-code
 // counters are compared with a reference function of the request (oracle.go).
@@ -58,6 +59,7 @@ type jobResult struct {
 	byWriter       map[string]int // requests per ResponseWriter (writer.go)
 	wrapperUsed    map[string]int // ... of which library code made calls on the wrapper
 	writerSamples  map[string]sample
+	byDelivery     map[string]int // dispatched requests (handler ran) per body delivery and method kind (delivery.go)
 	classes        map[string]int
 	notes          map[string]int
 	nontrivial     int // distinct non-trivial tuples of this job (jobs enumerate disjoint sets of tuples)
@@ -144,6 +146,26 @@ func (w *worker) minimize(t tuple, clause string) (tuple, *result, *Case) {
 			t = t2
 		}
 	}
+	// the delivery: the plain one, else walk to deliveries that differ from the
+	// plain one in fewer components while the clause persists
+	if t[7] != 0 {
+		t2 := t
+		t2[7] = 0
+		if r2, _ := w.check(t2); findClause(r2, clause) != nil {
+			t = t2
+		}
+	}
+	for changed := t[7] != 0; changed; {
+		changed = false
+		for _, name := range delivs[t[7]].Simpler {
+			t2 := t
+			t2[7] = indexOfDeliv(name)
+			if r2, _ := w.check(t2); findClause(r2, clause) != nil {
+				t, changed = t2, true
+				break
+			}
+		}
+	}
 	// a generated header set that is needed: walk to simpler sets of its family
 	// (one outcome parameter reset, one -bin value removed) while the clause persists
 	for changed := true; changed; {
@@ -190,6 +212,9 @@ func fingerprint(t tuple, f *finding) string {
 	if t[6] != 0 {
 		parts = append(parts, "writer="+writers[t[6]].Name)
 	}
+	if t[7] != 0 {
+		parts = append(parts, "delivery="+delivs[t[7]].Name)
+	}
 	if f.Obs != "" {
 		parts = append(parts, f.Obs)
 	}
@@ -200,7 +225,7 @@ var progress int64
 
 func (w *worker) runJob(gen func(func(tuple))) *jobResult {
 	jr := &jobResult{classes: map[string]int{}, notes: map[string]int{}, samples: map[string]sample{},
-		byWriter: map[string]int{}, wrapperUsed: map[string]int{}, writerSamples: map[string]sample{}}
+		byWriter: map[string]int{}, wrapperUsed: map[string]int{}, writerSamples: map[string]sample{}, byDelivery: map[string]int{}}
 	nontrivial := map[tuple]struct{}{}
 	seenRaw := map[string]bool{}
 	gen(func(t tuple) {
@@ -214,6 +239,9 @@ func (w *worker) runJob(gen func(func(tuple))) *jobResult {
 		// a request behind a wrapper only counts when library code did use the wrapper
 		if r.Class != "unknown-path" && (!writers[t[6]].Wrap || r.Obs.Probe.Calls > 0) {
 			nontrivial[t] = struct{}{}
+		}
+		if k := kindOf(t); k != "" && r.Obs.Cnt.handler > 0 {
+			jr.byDelivery[delivs[t[7]].Name+" "+k]++
 		}
 		if t[6] != 0 {
 			wn := writers[t[6]].Name
@@ -264,6 +292,9 @@ func describe(c *Case) string {
 	if c.Writer != "" {
 		s += " ResponseWriter=" + c.Writer
 	}
+	if c.Delivery != "" {
+		s += " body-delivery=" + c.Delivery
+	}
 	return s
 }
 
@@ -279,16 +310,24 @@ func describe(c *Case) string {
 //	   the plain recorder;
 //	D  every other ResponseWriter (writer.go) crossed with cfg x registered
 //	   method x every Content-Type x hand-written header set x every body, for POST;
+//	E  every other delivery of the body (delivery.go) crossed with cfg x registered
+//	   method x every Content-Type x hand-written header set x every body, for
+//	   POST, on the plain recorder;
 //	C  everything else that a two-axis sweep around the plain valid request of
 //	   each method kind reaches, for every cfg: generated header set x path,
 //	   generated header set x HTTP method, and writer x path, writer x HTTP method,
-//	   writer x generated header set.
+//	   writer x generated header set, delivery x path, delivery x HTTP method,
+//	   delivery x generated header set, delivery x writer.
 func coveredAB(t tuple) bool {
-	return t[6] == 0 && (t[4] < nCoreHdrs || (t[1] < len(kinds) && t[2] == 0))
+	return t[6] == 0 && t[7] == 0 && (t[4] < nCoreHdrs || (t[1] < len(kinds) && t[2] == 0))
 }
 
 func coveredD(t tuple) bool {
-	return t[6] != 0 && t[1] < len(kinds) && t[2] == 0 && t[4] < nCoreHdrs
+	return t[6] != 0 && t[7] == 0 && t[1] < len(kinds) && t[2] == 0 && t[4] < nCoreHdrs
+}
+
+func coveredE(t tuple) bool {
+	return t[7] != 0 && t[6] == 0 && t[1] < len(kinds) && t[2] == 0 && t[4] < nCoreHdrs
 }
 
 func chunkJobs(ts []tuple) []func(func(tuple)) {
@@ -308,7 +347,7 @@ func chunkJobs(ts []tuple) []func(func(tuple)) {
 func blockC() []tuple {
 	var out []tuple
 	for ci := range cfgs {
-		out = append(out, sweepTuples(ci, false, func(t tuple) bool { return !coveredAB(t) && !coveredD(t) })...)
+		out = append(out, sweepTuples(ci, false, func(t tuple) bool { return !coveredAB(t) && !coveredD(t) && !coveredE(t) })...)
 	}
 	return out
 }
@@ -363,6 +402,18 @@ func fullJobs() ([]func(func(tuple)), int) {
 								if t := (tuple{ci, pi, 0, ti, hi, bi, wi}); t.valid() {
 									yield(t)
 								}
+							}
+						}
+					}
+				}
+			})
+			total += n[3] * nCoreHdrs * n[5] * (n[7] - 1)
+			jobs = append(jobs, func(yield func(tuple)) { // block E
+				for di := 1; di < n[7]; di++ {
+					for ti := 0; ti < n[3]; ti++ {
+						for hi := 0; hi < nCoreHdrs; hi++ {
+							for bi := 0; bi < n[5]; bi++ {
+								yield(tuple{ci, pi, 0, ti, hi, bi, 0, di})
 							}
 						}
 					}
@@ -540,6 +591,7 @@ func selfCheck() error {
 	)
 	errs = append(errs, selfCheckGenerated()...)
 	errs = append(errs, selfCheckWriters()...)
+	errs = append(errs, selfCheckDeliveries()...)
 	for _, e := range errs {
 		if e != nil {
 			return e
@@ -760,7 +812,11 @@ func main() {
 	samplesByClass := map[string]sample{}
 	byWriter, wrapperUsed := map[string]int{}, map[string]int{}
 	writerSamples := map[string]sample{}
+	byDelivery := map[string]int{}
 	for _, jr := range results {
+		for k, v := range jr.byDelivery {
+			byDelivery[k] += v
+		}
 		for k, v := range jr.byWriter {
 			byWriter[k] += v
 		}
@@ -803,6 +859,21 @@ func main() {
 		}
 	}
 
+	// every delivery of the grammar reached the handler of every method kind
+	// (unless something was reported: a tree that refuses a delivery is a finding, not a checker problem)
+	nViol := 0
+	for _, jr := range results {
+		nViol += len(jr.viol)
+	}
+	for _, d := range delivs {
+		for _, k := range kinds {
+			if nViol == 0 && byDelivery[d.Name+" "+k] == 0 {
+				fmt.Fprintf(os.Stderr, "INCONCLUSIVE: no request with body delivery %s was dispatched to the %s handler\n", d.Name, k)
+				os.Exit(2)
+			}
+		}
+	}
+
 	// JSON == protobuf
 	eq := runEquiv(rep)
 
@@ -834,19 +905,21 @@ func main() {
 	}
 	samples = append(samples, sc.samples...)
 
-	rule := "request grammar = cfg{srv, mux(HandleServices), srv+/api base+interceptors, mux+/api base+interceptors} x path{4 registered methods (one per kind), 14-15 unregistered/non-canonical} x method{POST,GET,HEAD,PUT,DELETE,OPTIONS,PATCH,post,CONNECT} x Content-Type{" + fmt.Sprint(len(cts)) + " strings} x header set{" + fmt.Sprint(len(hdrs)) + "} x body{" + fmt.Sprint(len(bodies)) + "} x ResponseWriter{" + fmt.Sprint(len(writers)) + "}; " +
+	rule := "request grammar = cfg{srv, mux(HandleServices), srv+/api base+interceptors, mux+/api base+interceptors} x path{4 registered methods (one per kind), 14-15 unregistered/non-canonical} x method{POST,GET,HEAD,PUT,DELETE,OPTIONS,PATCH,post,CONNECT} x Content-Type{" + fmt.Sprint(len(cts)) + " strings} x header set{" + fmt.Sprint(len(hdrs)) + "} x body{" + fmt.Sprint(len(bodies)) + "} x ResponseWriter{" + fmt.Sprint(len(writers)) + "} x body delivery{" + fmt.Sprint(len(delivs)) + "}; " +
 		"each request is served by the real handler tree on a recorder (behind the ResponseWriter wrapper of the case) and judged by a reference function of the literal request. " +
+		fmt.Sprintf("BODY DELIVERY (%d): how the transport announces the length of the request body and hands its bytes to the handler, i.e. r.ContentLength / r.TransferEncoding / r.Proto and the behaviour of r.Body.Read: announce{length: ContentLength == len(body); chunked: ContentLength == -1 with Transfer-Encoding chunked (HTTP/1.1 client whose body is not a byte slice, a streaming proxy); h2: ContentLength == -1, HTTP/2.0, no content-length} x reader{whole: all bytes in one Read, then (0, EOF); 1byte: one byte per Read; data+eof: the last bytes together with io.EOF} = 9, plus 3 deliveries whose ContentLength, TransferEncoding and Body are what net/http's own http.ReadRequest makes of the literal HTTP/1.1 message carrying the body with a Content-Length header, as one chunk, and as one-byte chunks (%s). The reference function never looks at the delivery: the verdict demanded is the one demanded for the same method, path, headers and body bytes. ", len(delivs), delivList()) +
 		fmt.Sprintf("RESPONSE WRITERS (%d): what the http.ResponseWriter handed to the library can do. The plain httptest recorder; the recorder handed on untouched by a decorating Mux function given to HandleServices; and %d wrappers around the recorder, each a Go type of its own with exactly the named optional methods besides Header/Write/WriteHeader - %s - each in two placements: as an http middleware in front of the whole handler tree (*httpgrpc.Server resp. the ServeMux), and inside a Mux function given to HandleServices that decorates every handler it registers, as the package documentation suggests (only for the HandleServices configurations). The reply is read from the recorder behind the wrapper. Oracle: the same reference function as for every request (in particular: data frames followed by exactly one trailer frame), and, when that finds nothing, status, headers, body (streaming replies: frame by frame, trailers compared as messages) and application-code counters equal to those of the same request served on the plain recorder. ", len(writers), len(capKinds), capKindList()) +
 		fmt.Sprintf("Header sets: %d hand-written ones + %d generated ones of two families. ", nCoreHdrs, len(hdrs)-nCoreHdrs) +
 		fmt.Sprintf("(1) HANDLER OUTCOMES (%d sets): a header X-Outcome, plain metadata to the library, makes the handler of whatever kind is addressed finish with an error value of a given shape instead of the status.Err() the handlers otherwise fail with: at{start = before it reads the request, end = after it has read and answered everything, where it would return nil} x trailer metadata set by the handler{no,yes} x (type{status.Err(), value with its own GRPCStatus() method, the same wrapped with %%w} x code{OK,NotFound} x message{\"boom\",empty} x details{0,1} + {value whose GRPCStatus() is nil, errors.New(\"boom\"), errors.New(\"\"), context.DeadlineExceeded, wrapped context.Canceled}); the oracle: when the handler fails, the caller gets a non-OK status (unary) resp. the reply is the data frames the handler sent followed by exactly one trailer frame whose status is not OK (streams); code, message and details must be the status's own when the error is or has a non-OK status (only the code for a wrapped one). ", len(outcomeHdrs())) +
 		fmt.Sprintf("(2) SEVERAL -bin VALUES (%d sets) over {valid base64, not base64}: every sequence of length 1..3 under one -bin key (14), two -bin keys with every sequence of length 1..2 each (36), three -bin keys with one value each (8); the oracle: 400 and no application code as soon as one value is not base64. http.Header is a map and Go randomises map iteration, so a request with more than one distinct -bin key is served %d times (a fixed number), the header map being filled in another order of its keys each time (all permutations in turn), and the first run judged wrong is the one reported; such a case still counts once in evaluations (order_dependent_cases of them). Verdicts on sequences under one key do not depend on map order. ", len(binHdrs()), orderRepeats)
 	if exhaustive {
-		rule += "Thorough tier, four disjoint blocks, each enumerated completely: A = the full product of the six request axes over the hand-written header sets, on the plain recorder; B = generated header sets x cfg x registered method x every Content-Type x every body, for POST, on the plain recorder; D = every other ResponseWriter x cfg x registered method x every Content-Type x hand-written header set x every body, for POST (i.e. writer x method kind x every handler outcome the bodies produce: 0, 1, 2, 3 messages then OK, 0, 1, 2 messages then an error, undecodable request streams, and the 415/400 refusals); C = the remaining two-axis sweeps around the plain valid request of each method kind, for every cfg: generated header set x path, generated header set x HTTP method, writer x path (404), writer x HTTP method (405), writer x generated header set (handler outcomes of every shape, several -bin values). grammar_size is the size of A+B+C+D. "
+		rule += "Thorough tier, four disjoint blocks, each enumerated completely: A = the full product of the six request axes over the hand-written header sets, on the plain recorder with the plain delivery; B = generated header sets x cfg x registered method x every Content-Type x every body, for POST, on the plain recorder; D = every other ResponseWriter x cfg x registered method x every Content-Type x hand-written header set x every body, for POST (i.e. writer x method kind x every handler outcome the bodies produce: 0, 1, 2, 3 messages then OK, 0, 1, 2 messages then an error, undecodable request streams, and the 415/400 refusals); E = every other body delivery x cfg x registered method x every Content-Type x hand-written header set x every body, for POST, on the plain recorder (i.e. delivery x method kind x codec x every valid, undecodable, truncated and empty body); C = the remaining two-axis sweeps around the plain valid request of each method kind, for every cfg: generated header set x path, generated header set x HTTP method, writer x path (404), writer x HTTP method (405), writer x generated header set (handler outcomes of every shape, several -bin values), delivery x path, delivery x HTTP method, delivery x generated header set, delivery x writer. grammar_size is the size of A+B+C+D+E. "
 	} else {
-		rule += fmt.Sprintf("Quick tier: NOT the thorough tier's grammar (%d requests) but, around the plain valid request of each of the 4 method kinds, every single-axis sweep and every two-axis sweep over the seven axes, around cfg srv, and the sweeps that involve the writer axis once more around cfg mux, where the decorating-Mux placements exist (%d requests; pairwise-complete: every pair of values of any two axes, generated header sets and writers included, occurs in some request: writer x body gives writer x method kind x handler outcome {0, 1, 2, 3 messages then OK; 0, 1, 2 messages then an error; undecodable request}, writer x HTTP method / Content-Type / header set / path give the 405 / 415 / 400 / 404 paths). ", grammarSize, enumerated)
+		rule += fmt.Sprintf("Quick tier: NOT the thorough tier's grammar (%d requests) but, around the plain valid request of each of the 4 method kinds, every single-axis sweep and every two-axis sweep over the eight axes, around cfg srv, and the sweeps that involve the writer axis once more around cfg mux, where the decorating-Mux placements exist (%d requests; pairwise-complete: every pair of values of any two axes, generated header sets and writers included, occurs in some request: writer x body gives writer x method kind x handler outcome {0, 1, 2, 3 messages then OK; 0, 1, 2 messages then an error; undecodable request}, writer x HTTP method / Content-Type / header set / path give the 405 / 415 / 400 / 404 paths; delivery x body and delivery x Content-Type give delivery x method kind x codec x {valid, undecodable, truncated, empty} body). ", grammarSize, enumerated)
 	}
-	rule += "A request is non-trivial when it addresses a registered method, i.e. reaches the gatekeeping code of handleMethod/handleStream (requests to unregistered paths only exercise the mux) and, for a case with a ResponseWriter wrapper, library code made at least one call on the wrapper; distinct by (cfg,path,method,content type,header set,body,writer). " +
-		"Plus the JSON==protobuf comparison: message{9} x JSON rendering{2} x JSON content type{3} x header set{3} x cfg{4}, each against the protobuf encoding of the same message (all enumerated in both tiers; counted in evaluations, and in distinct_nontrivial when both requests were dispatched). " +
+	rule += "A request is non-trivial when it addresses a registered method, i.e. reaches the gatekeeping code of handleMethod/handleStream (requests to unregistered paths only exercise the mux) and, for a case with a ResponseWriter wrapper, library code made at least one call on the wrapper; distinct by (cfg,path,method,content type,header set,body,writer,delivery). " +
+		fmt.Sprintf("Plus the JSON==protobuf comparison: message{%d} x JSON rendering{%d} x JSON content type{%d} x header set{%d} x cfg{%d} x body delivery{%d} (both requests of a pair delivered the same way), each", len(eqMsgs), len(eqRenderings), len(eqCTs), len(eqHdrs), len(cfgs), len(delivs)) +
+		"  against the protobuf encoding of the same message (all enumerated in both tiers; counted in evaluations, and in distinct_nontrivial when both requests were dispatched). " +
 		"Plus SEVERAL REQUESTS ON ONE SERVER (sequences and overlaps): k = 1..3 requests of a pool, served by one fresh server in one fresh process (GOMAXPROCS(1), collector off) under a word over S_i (start request i, run it until its park-th ResponseWriter call WriteHeader/Write/Flush blocks on a gate, or to its end) and F_i (open the gate, run it to its end) with S_0<S_1<.. and S_i<F_i: 1/3/15 words for k=1/2/3, the first being the plain sequence; the pool is crossed with itself, so every order occurs. " +
 		"Pool = target kind{U,CS,SS,BD} x Content-Type{unary,stream,json,+charset variants,text/plain} with a body valid for that codec (every listed content type meets a kind that supports it and kinds that do not) + 20 requests differing on one other axis (sizes of the reply: same/longer/shorter, errors with details, undecodable bodies, GET, header sets including one handler-outcome directive and one sequence of -bin values, unknown method); overlapped pairs over 16 of them (JSON and protobuf unary calls of equal and different reply sizes, failing calls, a refused call, echoed metadata, one stream per kind), triples over 4 (3 JSON sizes + protobuf). Blocks enumerated completely: " + strings.Join(sc.blocks, "; ") + ". " +
 		"Every reply of every case is judged by the same reference function as an isolated request (a request judged wrong alone is reported under its isolated fingerprint; a finding of a case that a simpler, already reported case explains - fewer requests with the word projected onto them, the same requests one after the other, first park point, first configuration - is not reported again). Each overlapped case is run in two processes and the outputs must be byte-identical, otherwise the run is INCONCLUSIVE. " +
@@ -875,12 +948,16 @@ func main() {
 		"order_repeats":          orderRepeats,
 		"response_writers":       len(writers),
 		"requests_by_writer":     byWriter,
+		"body_deliveries":        len(delivs),
+		"dispatched_by_delivery": byDelivery,
 		"wrapper_used_by_writer": wrapperUsed,
 		"json_pb_pairs":          eq.evals,
 		"classes":                classes,
 		"notes":                  mergeNotes(notes, eq.notes),
 	}, []string{
-		"net/http's connection handling is not exercised: requests are built literally and served on httptest.ResponseRecorder (no network), directly or behind a wrapper that forwards to it",
+		"net/http's connection handling is not exercised: requests are built literally and served on httptest.ResponseRecorder (no network), directly or behind a wrapper that forwards to it; what a connection contributes to a request, the announcement of the body's length and the way Body.Read hands the bytes out, is the body-delivery axis (12 values, three of them net/http's own parse of a literal HTTP/1.1 message)",
+		"body deliveries in which the transport itself fails are not in the grammar (a body shorter or longer than its announced Content-Length, malformed chunk framing, a connection that breaks while the body is read): there the handler gets a read error, and the statement promises nothing about a request that did not arrive; Read calls that return (0, nil) are not generated either",
+		"the several-requests-on-one-server part uses the plain delivery (Content-Length, all bytes at once) throughout",
 		"ResponseWriter wrappers never fail: Write returns no error, FlushError returns nil (after a write that really failed the statement promises nothing: the connection is gone); Hijack/Push stubs refuse; the wrappers are crossed with the isolated requests only, the JSON==protobuf comparison and the several-requests-on-one-server part use the plain resp. the gated recorder (both have Flush)",
 		"the comparison with the plain recorder is not made for requests with several distinct -bin keys (map iteration order may make two runs of such a request differ by itself); behind every writer they are judged by the reference function in all 24 key orders like on the plain recorder",
 		"overlapping requests: a slow peer is modelled by a ResponseWriter whose n-th call blocks before consuming anything; interleavings are those of two steps per request (up to the gate / from the gate to the end), i.e. a request is preempted only inside its ResponseWriter, not at arbitrary instructions (races inside the library between two running requests are not explored; there is no shared mutable state in the unchanged server for them to race on)",
@@ -922,6 +999,14 @@ func selfCheckMessageCounts() string {
 		}
 	}
 	return ""
+}
+
+func delivList() string {
+	var out []string
+	for _, d := range delivs {
+		out = append(out, d.Name)
+	}
+	return strings.Join(out, ", ")
 }
 
 func capKindList() string {
